@@ -59,6 +59,40 @@ Definition reg_count (op : N) : option nat :=
   else if (op =? 23) || (op =? 31) then Some 4%nat
   else None.
 
+(** decodeFLAT: 13-bit field -> inst.Offset0 (uint32, sign-extended) *)
+Definition decode_off13 (raw : N) : N :=
+  let r := raw mod 8192 in if 4096 <=? r then r + 4294959104 else r.      (* r | 0xFFFFE000 *)
+
+(** wf.ReadOperand(inst.Addr, lane): RegCount consecutive VGPRs, little endian.
+    [vlo], [vhi] are the values of v[addr] and v[addr+1] of the lane. *)
+Definition read_addr_operand (regcount vlo vhi : N) : N :=
+  if regcount =? 1 then u32 vlo else u32 vlo + 4294967296 * u32 vhi.
+
+(** amd/timing/cu/defaultcoalescer.go readFlatAddr.  [sbase] = the SGPR pair
+    s[SAddr:SAddr+1] (only read in SAddr mode). *)
+Definition timing_flat_addr (regcount sbase vlo vhi off0 : N) : N :=
+  let has := regcount =? 1 in
+  let scalar_base := if has then u64 sbase else 0 in
+  let signed_offset := if off0 =? 0 then 0 else sext32 off0 in
+  let vgpr := read_addr_operand regcount vlo vhi in
+  let final := if has then u64 (scalar_base + vgpr mod 4294967296) else vgpr in
+  u64 (final + signed_offset).
+
+(** amd/emu/alu_flat.go and amd/emu/cdna3/flat.go: flatPrecomputeScalarBase
+    (mode from the SADDR field by the architecture's rule) + flatAddrWithScalar.
+    The Addr operand was sized by the decoder. *)
+Definition emu_flat_addr (cdna3 : bool) (saddr sbase vlo vhi off0 : N) : N :=
+  let has := emu_has_saddr cdna3 saddr in
+  let scalar_base := if has then u64 sbase else 0 in
+  let addr := read_addr_operand (decode_addr_regcount cdna3 saddr) vlo vhi in
+  let addr := if has then u64 (scalar_base + addr mod 4294967296) else addr in
+  if off0 =? 0 then addr else u64 (addr + sext32 off0).
+
+(** bytes one register-sized piece of an access covers *)
+Definition acc_size (op : N) : N :=
+  if (op =? 16) || (op =? 17) || (op =? 24) then 1
+  else if (op =? 18) || (op =? 19) || (op =? 26) then 2 else 4.
+
 (** opcodes the emulator implements (runFlat); anything else panics there *)
 Definition emu_load_op (op : N) : bool := existsb (N.eqb op) [16; 17; 18; 20; 21; 23].
 Definition emu_store_op (op : N) : bool := existsb (N.eqb op) [28; 29; 30; 31].
@@ -89,6 +123,15 @@ Definition lane_info (r : N) (exec : N) (addrs : list N) (rc : nat) (dst : N) : 
       (filter (fun x => line (snd x) =? line r) (accesses exec addrs rc)).
 
 Definition txn := (N * list (N * N * N))%type.
+
+(** byte [b] is consumed from the response of some read transaction of [ts]
+    (some lane-info entry selects it) *)
+Definition load_txn_byte (op : N) (ts : list txn) (b : N) : Prop :=
+  exists t li, In t ts /\ In li (snd t) /\ fst t + snd li <= b < fst t + snd li + acc_size op.
+
+(** byte [b] belongs to the access of some active lane *)
+Definition lane_byte (op exec : N) (addrs : list N) (rc : nat) (b : N) : Prop :=
+  exists l j x, In (l, j, x) (accesses exec addrs rc) /\ x <= b < x + acc_size op.
 
 Definition read_txns (exec : N) (addrs : list N) (rc : nat) (dst : N) : list txn :=
   map (fun r => (r, lane_info r exec addrs rc dst)) (read_reqs exec addrs rc).
@@ -285,9 +328,12 @@ Definition observe_s (r : srf) : list N := map (fun i => r (N.of_nat i)) (seq 0 
 
 Record fcase := mkFCase {
   fc_lg : N; fc_op : N; fc_exec : N;
-  fc_mode : bool;                 (* Addr.RegCount = 1, as decoded; both sides derive the same bit *)
-  fc_sbase : N; fc_off0 : N;
-  fc_vaddr : list N;              (* value of the Addr operand per lane *)
+  fc_mode : bool;                 (* Addr.RegCount = 1, as decoded by the real disassembler *)
+  fc_cdna3 : bool; fc_saddr : N;  (* architecture, 7-bit SADDR field *)
+  fc_sbase : N;
+  fc_raw13 : N;                   (* 13-bit immediate field *)
+  fc_off0 : N;                    (* inst.Offset0 as decoded *)
+  fc_vaddr : list N;              (* v[addr] + 2^32 * v[addr+1] per lane (both registers, whatever the mode) *)
   fc_dst : N;
   fc_data : list (list N);        (* stores: Data..Data+3 per lane *)
   fc_base : N; fc_mem : list N;   (* memory window *)
@@ -297,8 +343,13 @@ Record fcase := mkFCase {
   fc_wreq : option (list (N * list N * list bool))   (* stores: (line, Data, DirtyMask) *)
 }.
 
-Definition fc_addrs (c : fcase) : list N :=
-  map (fun v => flat_addr (fc_mode c) (fc_sbase c) v (fc_off0 c)) (fc_vaddr c).
+Definition fc_regcount (c : fcase) : N := decode_addr_regcount (fc_cdna3 c) (fc_saddr c).
+Definition fc_taddrs (c : fcase) : list N :=
+  map (fun v => timing_flat_addr (fc_regcount c) (fc_sbase c) (v mod 4294967296) (v / 4294967296)
+                                 (decode_off13 (fc_raw13 c))) (fc_vaddr c).
+Definition fc_eaddrs (c : fcase) : list N :=
+  map (fun v => emu_flat_addr (fc_cdna3 c) (fc_saddr c) (fc_sbase c) (v mod 4294967296) (v / 4294967296)
+                              (decode_off13 (fc_raw13 c))) (fc_vaddr c).
 
 Definition is_load (op : N) : bool := (6 <=? op) && (op <=? 23).
 
@@ -318,13 +369,17 @@ Definition wobs_eqb (a b : N * list N * list bool) : bool :=
 Definition omap {A B} (f : A -> B) (o : option A) : option B :=
   match o with Some x => Some (f x) | None => None end.
 
-(** detail bits: 1 emu model <> emu code; 2 transactions differ; 4 registers after
-    write-back differ; 8 write requests differ *)
+(** detail bits: 1 emu model <> emu code (the emulator model runs on [emu_flat_addr]);
+    2 transactions differ (the timing model runs on [timing_flat_addr]); 4 registers
+    after write-back differ; 8 write requests differ; 16 decoded mode bit or
+    decoded Offset0 differ from [decode_addr_regcount] / [decode_off13] *)
 Definition fcheck (c : fcase) : N :=
   let m := win_mem (fc_base c) (fc_mem c) in
-  let addrs := fc_addrs c in
-  if is_load (fc_op c) then
-    let e := omap (fun ws => observe_v (fc_dst c) (apply_v ws vsentinel)) (emu_load (fc_op c) (fc_exec c) addrs (fc_dst c) m) in
+  let addrs := fc_taddrs c in
+  (if Bool.eqb (fc_mode c) (timing_has_saddr (fc_regcount c)) && (fc_off0 c =? decode_off13 (fc_raw13 c))
+   then 0 else 16) +
+  (if is_load (fc_op c) then
+    let e := omap (fun ws => observe_v (fc_dst c) (apply_v ws vsentinel)) (emu_load (fc_op c) (fc_exec c) (fc_eaddrs c) (fc_dst c) m) in
     let ts := omap (fun rc => read_txns (fc_lg c) (fc_exec c) addrs rc (fc_dst c)) (reg_count (fc_op c)) in
     let tr := omap (fun ws => observe_v (fc_dst c) (apply_v ws vsentinel))
                    (timing_load (fc_lg c) fixed (fc_op c) (fc_exec c) addrs (fc_dst c) m) in
@@ -333,10 +388,10 @@ Definition fcheck (c : fcase) : N :=
     (if oeqb (leqb N.eqb) tr (fc_treg c) then 0 else 4)
   else
     let e := omap (fun m' => read m' (fc_base c) (length (fc_mem c)))
-                  (emu_store (fc_op c) (fc_exec c) addrs (fc_data c) m) in
+                  (emu_store (fc_op c) (fc_exec c) (fc_eaddrs c) (fc_data c) m) in
     let w := omap (map wreq_obs) (timing_store (fc_lg c) (fc_op c) (fc_exec c) addrs (fc_data c)) in
     (if oeqb (leqb N.eqb) e (fc_emu c) then 0 else 1) +
-    (if oeqb (leqb wobs_eqb) w (fc_wreq c) then 0 else 8).
+    (if oeqb (leqb wobs_eqb) w (fc_wreq c) then 0 else 8)).
 
 Definition fmismatches (cs : list fcase) : list (N * N) := mism_from fcheck 0 cs.
 
